@@ -95,6 +95,15 @@ pub enum CaseDesc {
     /// value of type `ty` - every value type starting at every offset in windows around the
     /// block sizes readers and writers buffer by
     Position { ty: String, pad: usize },
+    /// two instances of *different* classes that carry a property of one name (`Value`) with
+    /// different types: `x`, `y` index `same_name_sites()`; shape 0 = siblings, 1 = the second
+    /// nested in the first, 2 = two roots handed to the writer in reverse document order
+    SameName { x: usize, y: usize, shape: u8 },
+    /// known and unknown Ref / SharedString properties in one file: Model.PrimaryPart and
+    /// ObjectValue.Value point at instances of the file, and instance `carrier` also has an unknown
+    /// Ref property (named to sort before or after the known ones) with the given target
+    /// (0 null, 1 the Model, 2 the Part, 3 an instance outside the file) and an unknown SharedString
+    KnownAndUnknownRefs { carrier: usize, first: bool, target: u8 },
     /// text assembled from fragments (whitespace, CDATA delimiters, markup, non-ASCII): every
     /// sequence of up to three fragments, as an instance name, a String value, a Content URI and
     /// a Font family
@@ -146,6 +155,54 @@ pub fn forbidden_char_cases() -> Vec<CaseDesc> {
     for (l, _) in vals::xml_forbidden_chars() {
         for in_name in [false, true] {
             out.push(CaseDesc::Forbidden { label: l.to_owned(), in_name });
+        }
+    }
+    out
+}
+
+/// (class, value of its `Value` property)
+pub fn same_name_sites() -> Vec<(&'static str, PVal)> {
+    use rbx_types::{BrickColor, CFrame, Color3, Matrix3, Ray, Vector3};
+    vec![
+        ("IntValue", PVal::V(Variant::Int64(-7_000_000_000))),
+        ("StringValue", PVal::V(Variant::String("text".to_owned()))),
+        ("BoolValue", PVal::V(Variant::Bool(true))),
+        ("NumberValue", PVal::V(Variant::Float64(0.1))),
+        ("Color3Value", PVal::V(Variant::Color3(Color3::new(0.25, 0.5, 1.0)))),
+        ("Vector3Value", PVal::V(Variant::Vector3(Vector3::new(1.0, -2.0, 3.5)))),
+        ("CFrameValue", PVal::V(Variant::CFrame(CFrame::new(Vector3::new(1.0, 2.0, 3.0), Matrix3::identity())))),
+        ("ObjectValue", PVal::Ref(Tgt::Node(0))),
+        ("BrickColorValue", PVal::V(Variant::BrickColor(BrickColor::ReallyRed))),
+        ("RayValue", PVal::V(Variant::Ray(Ray::new(Vector3::new(0.0, 1.0, 0.0), Vector3::new(0.0, 0.0, -1.0))))),
+        ("ZzUnknownA", PVal::V(Variant::Int32(5))),
+        ("ZzUnknownB", PVal::V(Variant::String("five".to_owned()))),
+        ("Folder", PVal::V(Variant::Float32(5.5))),
+    ]
+}
+
+pub fn same_name_cases() -> Vec<CaseDesc> {
+    let n = same_name_sites().len();
+    let mut out = Vec::new();
+    for x in 0..n {
+        for y in 0..n {
+            if x == y {
+                continue;
+            }
+            for shape in 0..3u8 {
+                out.push(CaseDesc::SameName { x, y, shape });
+            }
+        }
+    }
+    out
+}
+
+pub fn known_and_unknown_ref_cases() -> Vec<CaseDesc> {
+    let mut out = Vec::new();
+    for carrier in 0..4usize {
+        for first in [false, true] {
+            for target in 0..4u8 {
+                out.push(CaseDesc::KnownAndUnknownRefs { carrier, first, target });
+            }
         }
     }
     out
@@ -534,6 +591,35 @@ pub fn build_plan(desc: &CaseDesc, codec: Codec) -> Plan {
                     props: if *in_name { vec![] } else { vec![("Str".to_owned(), PVal::V(Variant::String(text)))] },
                 }],
                 roots: RootSel::Nodes(vec![0]),
+            }
+        }
+        CaseDesc::KnownAndUnknownRefs { carrier, first, target } => {
+            let mut nodes = vec![
+                PNode { class: "Model".to_owned(), name: "a".to_owned(), parent: None, props: vec![("PrimaryPart".to_owned(), PVal::Ref(Tgt::Node(2)))] },
+                PNode { class: "ObjectValue".to_owned(), name: "b".to_owned(), parent: Some(0), props: vec![("Value".to_owned(), PVal::Ref(Tgt::Node(0)))] },
+                PNode { class: "Part".to_owned(), name: "c".to_owned(), parent: Some(0), props: vec![("Anchored".to_owned(), PVal::V(Variant::Bool(true)))] },
+                PNode { class: "ObjectValue".to_owned(), name: "d".to_owned(), parent: None, props: vec![("Value".to_owned(), PVal::Ref(Tgt::Node(2)))] },
+            ];
+            let t = match target {
+                0 => Tgt::Null,
+                1 => Tgt::Node(0),
+                2 => Tgt::Node(2),
+                _ => Tgt::Ghost,
+            };
+            let (rn, sn) = if *first { ("AaaUnknownRef", "AaaUnknownShared") } else { ("ZzzUnknownRef", "ZzzUnknownShared") };
+            nodes[*carrier].props.push((rn.to_owned(), PVal::Ref(t)));
+            nodes[*carrier].props.push((sn.to_owned(), PVal::Shared(b"unknown shared content".to_vec())));
+            Plan { nodes, roots: RootSel::Nodes(vec![0, 3]) }
+        }
+        CaseDesc::SameName { x, y, shape } => {
+            let sites = same_name_sites();
+            let (a, b) = (&sites[*x], &sites[*y]);
+            Plan {
+                nodes: vec![
+                    PNode { class: a.0.to_owned(), name: "first".to_owned(), parent: None, props: vec![("Value".to_owned(), a.1.clone())] },
+                    PNode { class: b.0.to_owned(), name: "second".to_owned(), parent: if *shape == 1 { Some(0) } else { None }, props: vec![("Value".to_owned(), b.1.clone())] },
+                ],
+                roots: if *shape == 1 { RootSel::Nodes(vec![0]) } else if *shape == 2 { RootSel::Nodes(vec![1, 0]) } else { RootSel::Nodes(vec![0, 1]) },
             }
         }
         CaseDesc::OfClass { class } => Plan {
@@ -1044,6 +1130,12 @@ pub fn binary_roundtrip(plan: &Plan, how: How, c: Compression, mode: FloatMode) 
     }
 }
 
+/// same shape, classes and names, and every property `b` shows is shown by `a` with the same value
+pub fn covers(a: &[CNode], b: &[CNode]) -> bool {
+    a.len() == b.len()
+        && a.iter().zip(b).all(|(x, y)| x.class == y.class && x.name == y.name && y.props.iter().all(|(k, v)| x.props.get(k) == Some(v)) && covers(&x.children, &y.children))
+}
+
 pub fn xml_options(mode: XmlMode) -> (rbx_xml::EncodeOptions<'static>, rbx_xml::DecodeOptions<'static>) {
     use rbx_xml::{DecodeOptions, DecodePropertyBehavior, EncodeOptions, EncodePropertyBehavior};
     match mode {
@@ -1179,6 +1271,19 @@ pub fn xml_roundtrip(plan: &Plan, how: How, mode: XmlMode, fmode: FloatMode) -> 
                             }
                         }
                         Err(_) => entry_points.push("EncodePropertyBehavior::ErrorOnUnknown panics".to_owned()),
+                    }
+                    if has_unknown && matches!(crate::evidence::guarded(|| rbx_xml::from_reader(with_unknown.as_slice(), DecodeOptions::new().property_behavior(DecodePropertyBehavior::ReadUnknown)).map_err(|e| e.to_string())), Ok(Ok(_))) {
+                        // (a document rbx_xml cannot read back at all is the round trip's business)
+                        // the WriteUnknown document read with the default options: what is unknown may
+                        // be left out, everything the default round trip shows must be there unchanged
+                        match crate::evidence::guarded(|| rbx_xml::from_reader(with_unknown.as_slice(), DecodeOptions::new()).map_err(|e| e.to_string())) {
+                            Ok(Ok(d3)) => {
+                                if !covers(&canon_forest(&d3, d3.root().children(), fmode), &forest) {
+                                    entry_points.push("the default decode of the document WriteUnknown writes loses or changes what the default round trip shows (known properties must not depend on unknown ones being present)".to_owned());
+                                }
+                            }
+                            _ => entry_points.push("the default decode fails on the document WriteUnknown writes".to_owned()),
+                        }
                     }
                     for (name, b) in [("ReadUnknown", DecodePropertyBehavior::ReadUnknown), ("ErrorOnUnknown", DecodePropertyBehavior::ErrorOnUnknown)] {
                         // the default document holds nothing unknown (unless the class itself is)
@@ -1412,6 +1517,11 @@ pub fn label_of(desc: &CaseDesc) -> String {
         CaseDesc::Text { frags } => format!("text|{:?}", frags),
         CaseDesc::Position { ty, pad } => format!("position|{}|{}", ty, pad),
         CaseDesc::OfClass { class } => format!("of-class|{}", class),
+        CaseDesc::KnownAndUnknownRefs { carrier, first, target } => format!("known+unknown-refs|{}|{}|{}", carrier, if *first { "sorts-first" } else { "sorts-last" }, ["null", "model", "part", "outside"][*target as usize]),
+        CaseDesc::SameName { x, y, shape } => {
+            let s = same_name_sites();
+            format!("same-name|{}|{}|{}", s[*x].0, s[*y].0, ["siblings", "nested", "roots-reversed"][*shape as usize])
+        }
         CaseDesc::Forbidden { label, in_name } => format!("xml-forbidden-char|{}|{}", label, if *in_name { "name" } else { "value" }),
         CaseDesc::Counts { per_class } => format!("counts|{:?}", if per_class.len() > 6 { vec![per_class[0], per_class.len()] } else { per_class.clone() }),
     }
@@ -1442,6 +1552,8 @@ pub fn class_of(desc: &CaseDesc) -> String {
         CaseDesc::Text { .. } => "text".to_owned(),
         CaseDesc::Position { ty, .. } => format!("position:{}", ty),
         CaseDesc::OfClass { .. } => "of-class".to_owned(),
+        CaseDesc::SameName { .. } => "same-name-two-classes".to_owned(),
+        CaseDesc::KnownAndUnknownRefs { .. } => "known-and-unknown-refs".to_owned(),
         CaseDesc::Forbidden { in_name, .. } => format!("xml-forbidden-char:{}", if *in_name { "name" } else { "value" }),
         CaseDesc::Counts { .. } => "counts".to_owned(),
     }
